@@ -16,6 +16,7 @@ import XV.Driver.Dom
 import XV.Driver.XmlWf
 import XV.Driver.Facet
 import XV.Driver.Ser
+import XV.Driver.Formatter
 open XV.Driver
 
 def main (args : List String) : IO UInt32 := do
@@ -52,5 +53,6 @@ def main (args : List String) : IO UInt32 := do
   | ["facet"] => lineLoop stdin stdout XV.Driver.Facet.handle; return 0
   | ["facetspec"] => lineLoop stdin stdout XV.Driver.Facet.handleSpec; return 0
   | ["ser"] => lineLoop stdin stdout XV.Driver.Ser.handle; return 0
+  | ["fmt"] => lineLoop stdin stdout XV.Driver.Formatter.handle; return 0
   | ["utf8spec"] => lineLoop stdin stdout XV.Driver.Utf8.handleSpec; return 0
   | _ => IO.eprintln "usage: xvdriver <area>"; return 2
